@@ -89,7 +89,7 @@ func wrapRoot(root model.VectorOperator, query string, start, end, step int64) m
 	}
 	b := &builder{st: st, qid: atomic.AddInt64(&qidGen, 1)}
 	w := b.wrap(root, false)
-	st.sink.Emit(vt.Ev{"ev": "plan", "q": b.qid, "query": query, "start": start, "end": end, "step": step,
+	st.sink.Emit(vt.Ev{"ev": "plan", "q": b.qid, "query": query, "start": start - vt.BaseMs, "end": end - vt.BaseMs, "step": step,
 		"root": w.(*wrapOp).id, "ops": b.ops})
 	return w
 }
@@ -215,7 +215,7 @@ func (w *wrapOp) Next(ctx context.Context) ([]model.StepVector, error) {
 			}
 			ids := make([]uint64, len(v.SampleIDs))
 			copy(ids, v.SampleIDs)
-			b = append(b, map[string]any{"t": v.T, "ids": ids, "nv": len(v.Samples), "stale": stale})
+			b = append(b, map[string]any{"t": v.T - vt.BaseMs, "ids": ids, "nv": len(v.Samples), "stale": stale})
 		}
 		ev["b"] = b
 	}
